@@ -317,6 +317,63 @@ Section Facts2.
   Proof. intros H2 Hz0 Hz1. prove_r2 calculate_r2_hN H2 Hz0 Hz1. Qed.
 End Facts2.
 
+(* replace every attribute value [S name i] by an opaque variable (string-indexed atoms are large terms;
+   [field] and [subst] are much faster on variables) *)
+Ltac abs_atom S i name := let v := fresh "v" in set (v := S name i) in *; clearbody v.
+Ltac abs_atoms S i :=
+  abs_atom S i "s.curvature"; abs_atom S i "s.torsion"; abs_atom S i "s.abs_G0_over_B0"; abs_atom S i "s.iotaN"; abs_atom S i "s.iota";
+  abs_atom S i "s.B0"; abs_atom S i "s.etabar"; abs_atom S i "s.B20"; abs_atom S i "s.B2c"; abs_atom S i "s.B2s"; abs_atom S i "s.G0"; abs_atom S i "s.G2";
+  abs_atom S i "s.I2"; abs_atom S i "s.beta_1s"; abs_atom S i "s.spsi"; abs_atom S i "s.sG"; abs_atom S i "s.sigma"; abs_atom S i "s.p2";
+  abs_atom S i "s.X1c"; abs_atom S i "s.Y1c"; abs_atom S i "s.Y1s"; abs_atom S i "s.d_X1c_d_varphi"; abs_atom S i "s.d_Y1c_d_varphi"; abs_atom S i "s.d_Y1s_d_varphi";
+  abs_atom S i "s.X20"; abs_atom S i "s.X2c"; abs_atom S i "s.X2s"; abs_atom S i "s.Y20"; abs_atom S i "s.Y2c"; abs_atom S i "s.Y2s";
+  abs_atom S i "s.Z20"; abs_atom S i "s.Z2c"; abs_atom S i "s.Z2s";
+  abs_atom S i "s.d_X20_d_varphi"; abs_atom S i "s.d_X2c_d_varphi"; abs_atom S i "s.d_X2s_d_varphi";
+  abs_atom S i "s.d_Y20_d_varphi"; abs_atom S i "s.d_Y2c_d_varphi"; abs_atom S i "s.d_Y2s_d_varphi";
+  abs_atom S i "s.d_Z20_d_varphi"; abs_atom S i "s.d_Z2c_d_varphi"; abs_atom S i "s.d_Z2s_d_varphi";
+  abs_atom S i "s.X3c1"; abs_atom S i "s.Y3c1"; abs_atom S i "s.Y3s1"; abs_atom S i "s.flux_constraint_coefficient";
+  abs_atom S i "s.d_varphi_d_phi".
+
+(* ------------------------------------------------------------------------------------------ *)
+(* Third order: facts extracted from calculate_r3 *)
+Section Facts3.
+  Context {I : Type} (O : ops I) (S : string -> I -> R).
+  (* the flux-constraint coefficient lambda, as written in calculate_r3 *)
+  Definition lam_code (i : I) : R :=
+    let B0 := S "s.B0" i in let G0 := S "s.G0" i in let I2 := S "s.I2" i in let iotaN := S "s.iotaN" i in
+    let lp := S "s.abs_G0_over_B0" i in let tau := S "s.torsion" i in let B1c := S "s.etabar" i * S "s.B0" i in
+    let B20 := S "s.B20" i in
+    let X1c := S "s.X1c" i in let Y1c := S "s.Y1c" i in let Y1s := S "s.Y1s" i in
+    let dX1c := S "s.d_X1c_d_varphi" i in let dY1c := S "s.d_Y1c_d_varphi" i in
+    let X20 := S "s.X20" i in let X2c := S "s.X2c" i in let X2s := S "s.X2s" i in
+    let Y20 := S "s.Y20" i in let Y2c := S "s.Y2c" i in let Y2s := S "s.Y2s" i in
+    let Z20 := S "s.Z20" i in let Z2c := S "s.Z2c" i in let Z2s := S "s.Z2s" i in
+    (-4*B0^2*G0*X20^2*Y1c^2 + 8*B0^2*G0*X20*X2c*Y1c^2 - 4*B0^2*G0*X2c^2*Y1c^2 - 4*B0^2*G0*X2s^2*Y1c^2 + 8*B0*G0*B1c*X1c*X2s*Y1c*Y1s + 16*B0^2*G0*X20*X2s*Y1c*Y1s + 2*B0^2*I2*iotaN*X1c^2*Y1s^2 - G0*B1c^2*X1c^2*Y1s^2 - 4*B0*G0*B20*X1c^2*Y1s^2 - 8*B0*G0*B1c*X1c*X20*Y1s^2 - 4*B0^2*G0*X20^2*Y1s^2 - 8*B0*G0*B1c*X1c*X2c*Y1s^2 - 8*B0^2*G0*X20*X2c*Y1s^2 - 4*B0^2*G0*X2c^2*Y1s^2 - 4*B0^2*G0*X2s^2*Y1s^2 + 8*B0^2*G0*X1c*X20*Y1c*Y20 - 8*B0^2*G0*X1c*X2c*Y1c*Y20 - 8*B0^2*G0*X1c*X2s*Y1s*Y20 - 4*B0^2*G0*X1c^2*Y20^2 - 8*B0^2*G0*X1c*X20*Y1c*Y2c + 8*B0^2*G0*X1c*X2c*Y1c*Y2c + 24*B0^2*G0*X1c*X2s*Y1s*Y2c + 8*B0^2*G0*X1c^2*Y20*Y2c - 4*B0^2*G0*X1c^2*Y2c^2 + 8*B0^2*G0*X1c*X2s*Y1c*Y2s - 8*B0*G0*B1c*X1c^2*Y1s*Y2s - 8*B0^2*G0*X1c*X20*Y1s*Y2s - 24*B0^2*G0*X1c*X2c*Y1s*Y2s - 4*B0^2*G0*X1c^2*Y2s^2 - 4*B0^2*G0*X1c^2*Z20^2 - 4*B0^2*G0*Y1c^2*Z20^2 - 4*B0^2*G0*Y1s^2*Z20^2 - 4*B0^2*lp*I2*Y1c*Y1s*Z2c + 8*B0^2*G0*X1c^2*Z20*Z2c + 8*B0^2*G0*Y1c^2*Z20*Z2c - 8*B0^2*G0*Y1s^2*Z20*Z2c - 4*B0^2*G0*X1c^2*Z2c^2 - 4*B0^2*G0*Y1c^2*Z2c^2 - 4*B0^2*G0*Y1s^2*Z2c^2 + 2*B0^2*lp*I2*X1c^2*Z2s + 2*B0^2*lp*I2*Y1c^2*Z2s - 2*B0^2*lp*I2*Y1s^2*Z2s + 16*B0^2*G0*Y1c*Y1s*Z20*Z2s - 4*B0^2*G0*X1c^2*Z2s^2 - 4*B0^2*G0*Y1c^2*Z2s^2 - 4*B0^2*G0*Y1s^2*Z2s^2 + B0^2*lp*I2*X1c^3*Y1s*tau + B0^2*lp*I2*X1c*Y1c^2*Y1s*tau + B0^2*lp*I2*X1c*Y1s^3*tau - B0^2*I2*X1c*Y1c*Y1s*dX1c + B0^2*I2*X1c^2*Y1s*dY1c)/(16*B0^2*G0*X1c^2*Y1s^2).
+
+  Record r3_facts : Prop := {
+    r3_X3c1 : forall i, S "s.X3c1" i = S "s.X1c" i * S "s.flux_constraint_coefficient" i;
+    r3_Y3c1 : forall i, S "s.Y3c1" i = S "s.Y1c" i * S "s.flux_constraint_coefficient" i;
+    r3_Y3s1 : forall i, S "s.Y3s1" i = S "s.Y1s" i * S "s.flux_constraint_coefficient" i;
+    r3_lam : forall i, S "s.flux_constraint_coefficient" i = lam_code i
+  }.
+
+  Ltac prove_r3 P H3 :=
+    let HV := fresh "HV" in
+    pose proof (st_fix _ _ _ _ H3) as HV;
+    constructor;
+    [ intros i; from_state H3; unfold_fixes O P HV ("s.X3c1" :: "s.flux_constraint_coefficient" :: nil)%list; reflexivity
+    | intros i; from_state H3; unfold_fixes O P HV ("s.Y3c1" :: "s.flux_constraint_coefficient" :: nil)%list; reflexivity
+    | intros i; from_state H3; unfold_fixes O P HV ("s.Y3s1" :: "s.flux_constraint_coefficient" :: nil)%list; reflexivity
+    | intros i; unfold lam_code; cbv zeta; from_state H3;
+      unfold_fixes O P HV ("s.flux_constraint_coefficient" :: "flux_constraint_coefficient" :: "B0" :: "G0" :: "I2" :: "X1c" :: "Y1c" :: "Y1s"
+        :: "X20" :: "X2s" :: "X2c" :: "Y20" :: "Y2s" :: "Y2c" :: "Z20" :: "Z2s" :: "Z2c" :: "B20" :: "B1c" :: "B0" :: "torsion"
+        :: "abs_G0_over_B0" :: "d_X1c_d_varphi" :: "d_Y1c_d_varphi" :: nil)%list;
+      qsimp; unfold Rdiv; ring ].
+  Lemma r3_facts_of_stage_h0 V3 : stage O calculate_r3_h0 S V3 -> r3_facts.
+  Proof. intros H3. prove_r3 calculate_r3_h0 H3. Qed.
+  Lemma r3_facts_of_stage_hN V3 : stage O calculate_r3_hN S V3 -> r3_facts.
+  Proof. intros H3. prove_r3 calculate_r3_hN H3. Qed.
+End Facts3.
+
 (* ------------------------------------------------------------------------------------------ *)
 (* Second order: claims *)
 Section R2.
@@ -327,6 +384,7 @@ Section R2.
   Hypothesis H2 : r2_facts O S.
   Hypothesis Hadm : admissible S.
   Hypothesis Hsig : forall i, sigma_residual O S i = 0.
+  Hypothesis H3 : r3_facts S.
   Let HL : linear O := der_lin O HD.
 
   Notation kap := (S "s.curvature"). Notation eta := (S "s.etabar"). Notation sig := (S "s.sigma").
@@ -378,67 +436,295 @@ Section R2.
   Section Claims.
     Variable i : I.
     Variable b : atoms.
-    Ltac start := destruct b; unfold with_second_order, atoms_of; nonzero i.
+  (* the first-order solution re-expressed with X1c, Y1c, d X1c as the independent atoms *)
+    Lemma X1c_nz : X1c i <> 0.
+    Proof. rewrite (ax_X1c S HA). nonzero i. unfold Rdiv. apply Rmult_integral_contrapositive_currified; [assumption|apply Rinv_neq_0_compat; assumption]. Qed.
+    Lemma Y1s_x : Y1s i = sG i * spsi i / X1c i.
+    Proof. rewrite (ax_X1c S HA), (r1_Y1s O S HR). nonzero i. field. split; assumption. Qed.
+    Lemma eta_x : eta i = kap i * X1c i.
+    Proof. rewrite (ax_X1c S HA). nonzero i. field. assumption. Qed.
+    Lemma sig_x : sig i = Y1c i * X1c i * (sG i * spsi i).
+    Proof. rewrite (ax_X1c S HA), (r1_Y1c O S HR). nonzero i. sign_cases i; field; split; assumption. Qed.
+    Lemma dY1s_x : dY1s i = - dX1c i * (sG i * spsi i) / (X1c i * X1c i).
+    Proof.
+      rewrite (dX1c_formula O S HD HA HR Hadm), (dY1s_formula O S HD HR Hadm), (ax_X1c S HA). nonzero i.
+      field. split; assumption.
+    Qed.
+    Lemma dY1c_x : dY1c i = (2 * S "s.I2" i * lp i * X1c i * Y1s i / (spsi i * B0 i)
+                             - 2 * lp i * tau i * X1c i * Y1s i
+                             - iotaN i * (X1c i * X1c i + Y1s i * Y1s i + Y1c i * Y1c i) + dY1s i * Y1c i) / Y1s i.
+    Proof.
+      pose proof (pol3_avg_identity O S HD HA HR Hadm i (atoms_of S i)) as K. rewrite Hsig, Rmult_0_r in K.
+      unfold with_first_order, atoms_of in K. cbv -[Rplus Rmult Ropp Rinv Rminus Rdiv IZR pow o_D Dv sigma_residual] in K.
+      nonzero i. pose proof X1c_nz as Hx.
+      assert (Hy : Y1s i <> 0).
+      { rewrite Y1s_x. sign_cases i; unfold Rdiv; apply Rmult_integral_contrapositive_currified; try lra; apply Rinv_neq_0_compat; assumption. }
+      assert (Hp : spsi i <> 0) by (intros E; pose proof (adm_spsi S Hadm i) as Q; rewrite E in Q; lra).
+      match type of K with ?L = 0 =>
+        assert (E : (dY1c i - (2 * S "s.I2" i * lp i * X1c i * Y1s i / (spsi i * B0 i)
+                             - 2 * lp i * tau i * X1c i * Y1s i
+                             - iotaN i * (X1c i * X1c i + Y1s i * Y1s i + Y1c i * Y1c i) + dY1s i * Y1c i) / Y1s i)
+                    * (spsi i * B0 i * Y1s i / 2) = L) by (field; repeat split; assumption)
+      end.
+      rewrite K in E. apply Rmult_integral in E. destruct E as [E|E]; [lra|].
+      exfalso. assert (spsi i * B0 i * Y1s i <> 0) by (repeat apply Rmult_integral_contrapositive_currified; assumption). lra.
+    Qed.
+
+    Notation ss := (S "s.sG" i * S "s.spsi" i).
+    Notation x := (S "s.X1c" i). Notation c := (S "s.Y1c" i). Notation dx := (S "s.d_X1c_d_varphi" i).
+    Lemma Y1s_nz : Y1s i <> 0.
+    Proof.
+      pose proof X1c_nz. rewrite Y1s_x.
+      sign_cases i; unfold Rdiv; apply Rmult_integral_contrapositive_currified; try lra; apply Rinv_neq_0_compat; assumption.
+    Qed.
+    (* compact forms (sympy) of dY1c, Z2*, Y2* in the independent atoms x = X1c, c = Y1c, dx = dX1c *)
+    Lemma dY1c_c : dY1c i = - ss * iotaN i * (x ^ 4 + x * x * c * c + 1) / x - 2 * x * lp i * tau i - c * dx / x
+                            + 2 * S "s.I2" i * x * lp i * spsi i / B0 i.
+    Proof.
+      rewrite dY1c_x, dY1s_x, Y1s_x. nonzero i. pose proof X1c_nz.
+      sign_cases i; field; repeat split; try assumption; lra.
+    Qed.
+    Lemma Z20_c : S "s.Z20" i = ss * iotaN i * x * c * (x * x + c * c) / (4 * lp i) + x * c * tau i / 2 - x * dx / (4 * lp i)
+          + c * c * dx / (4 * x * lp i) + ss * c * iotaN i / (4 * x * lp i) + dx / (4 * x ^ 3 * lp i)
+          - S "s.I2" i * x * c * spsi i / (2 * B0 i).
+    Proof.
+      rewrite Z20_formula, dY1c_c, dY1s_x, Y1s_x. nonzero i. pose proof X1c_nz.
+      sign_cases i; field; repeat split; try assumption; lra.
+    Qed.
+    Lemma Z2c_c : S "s.Z2c" i = ss * iotaN i * x * c * (x * x + c * c) / (4 * lp i) + x * c * tau i / 2 - x * dx / (4 * lp i)
+          + c * c * dx / (4 * x * lp i) - ss * c * iotaN i / (4 * x * lp i) - dx / (4 * x ^ 3 * lp i)
+          - S "s.I2" i * x * c * spsi i / (2 * B0 i).
+    Proof.
+      rewrite Z2c_formula, dY1c_c, dY1s_x, Y1s_x. nonzero i. pose proof X1c_nz.
+      sign_cases i; field; repeat split; try assumption; lra.
+    Qed.
+    Lemma Z2s_c : S "s.Z2s" i = iotaN i * (x * x + c * c) / (2 * lp i) + ss * tau i / 2 + c * dx * ss / (2 * x * x * lp i)
+          - S "s.I2" i * ss * spsi i / (2 * B0 i).
+    Proof.
+      rewrite Z2s_formula, dY1c_c, dY1s_x, Y1s_x. nonzero i. pose proof X1c_nz.
+      sign_cases i; field; repeat split; try assumption; lra.
+    Qed.
+    Lemma Y2s_c : S "s.Y2s" i = - ss * kap i / 2 - ss * (S "s.X2c" i + S "s.X20" i) / (x * x) + S "s.X2s" i * c / x.
+    Proof.
+      rewrite (r2_Y2s O S H2). unfold alg_Y2s. rewrite sig_x, eta_x. nonzero i. pose proof X1c_nz.
+      sign_cases i; field; repeat split; try assumption; lra.
+    Qed.
+    Lemma Y2c_c : S "s.Y2c" i = ss * S "s.X2s" i / (x * x) + S "s.X2c" i * c / x - c * S "s.X20" i / x + S "s.Y20" i.
+    Proof.
+      rewrite (r2_Y2c O S H2). unfold alg_Y2c. rewrite sig_x, eta_x. nonzero i. pose proof X1c_nz.
+      sign_cases i; field; repeat split; try assumption; lra.
+    Qed.
+
+
+    Ltac start := destruct b; unfold with_second_order, atoms_of; nonzero i; pose proof X1c_nz.
     Ltac split_coefs := compute_coef; repeat first [apply Forall_nil | apply Forall_cons | split]; cbn [fst snd cv]; try reflexivity.
+    Ltac dsigns :=
+      let HsG := fresh "HsG" in let Hsp := fresh "Hsp" in
+      destruct (sq1_cases _ (adm_sG S Hadm i)) as [HsG|HsG]; destruct (sq1_cases _ (adm_spsi S Hadm i)) as [Hsp|Hsp].
+    Ltac fin := abs_atoms S i; subst; field; repeat split; assumption.
+    Ltac pose_Z := pose proof (Z20_formula i) as EZ0; pose proof (Z2s_formula i) as EZs; pose proof (Z2c_formula i) as EZc.
+    (* facts in the compact parametrisation *)
+    Ltac pose_common :=
+      pose proof Y2s_c as EY2s; pose proof Y2c_c as EY2c; pose proof Z20_c as EZ0; pose proof Z2s_c as EZs; pose proof Z2c_c as EZc;
+      pose proof dY1c_c as EdY1c; pose proof dY1s_x as EdY1s; pose proof Y1s_x as EY1s; pose proof eta_x as Eeta;
+      pose proof (f_equal (fun f => f i) (ax_G0 S HA)) as EG0; cbv beta in EG0.
+    Ltac prep_q E :=
+      unfold q_c, q_s, r_c, r_s in E; rewrite ?ll_lp, ?bl_lp in E;
+      rewrite <- ?(r1_dX1c O S HR), <- ?(r1_dY1c O S HR), <- ?(r1_dY1s O S HR) in E.
 
     Lemma rad1 : tzero (rad (with_second_order S i b) 1%nat).
-    Proof.
-      start. split_coefs; rewrite ?Z20_formula, ?Z2s_formula, ?Z2c_formula; field; assumption.
-    Qed.
-    Ltac subst_r1 :=
-      rewrite ?(ax_G0 S HA), ?(ax_X1c S HA), ?(r1_Y1s O S HR), ?(r1_Y1c O S HR); cbv beta.
-    Ltac subst_r1d :=
-      rewrite ?(dX1c_formula O S HD HA HR Hadm), ?(dY1s_formula O S HD HR Hadm), ?(dY1c_formula O S HD HR Hadm).
-    Ltac subst_Z := rewrite ?Z20_formula, ?Z2s_formula, ?Z2c_formula.
-    Ltac subst_Y2 := rewrite ?(r2_Y2s O S H2), ?(r2_Y2c O S H2); unfold alg_Y2s, alg_Y2c.
-
-    Lemma Dsig_formula : Dv O S sig i
-      = 2 * (eta i * eta i / (kap i * kap i)) * (- spsi i * tau i + S "s.I2" i / B0 i) * S "s.G0" i / B0 i
-        - iotaN i * (eta i ^ 4 / kap i ^ 4 + 1 + sig i * sig i).
-    Proof. pose proof (Hsig i) as K. unfold sigma_residual in K. unfold Dv. lra. Qed.
-
+    Proof. start. split_coefs; pose_Z; fin. Qed.
     Lemma pol3 : tzero (pol (with_second_order S i b) 3%nat).
     Proof.
       pose proof (pol3_avg_identity O S HD HA HR Hadm i (atoms_of S i)) as K. rewrite Hsig, Rmult_0_r in K.
-      start. split_coefs; [exact K | |]; subst_Z; field; assumption.
+      start. split_coefs; [exact K | |]; pose_Z; fin.
     Qed.
+    Ltac solve_all :=
+      repeat first [apply Forall_nil | apply Forall_cons | split]; cbn [fst snd cv]; try reflexivity;
+      field; repeat split; assumption.
     Lemma tor2 : tzero (tor (with_second_order S i b) 2%nat).
-    Proof.
-      start. split_coefs; subst_Y2; subst_r1; sign_cases i; field; repeat split; assumption.
-    Qed.
+    Proof. start. compute_coef. dsigns; pose_common; abs_atoms S i; subst; solve_all. Qed.
     Lemma jac2 : tzero (jac (with_second_order S i b) 2%nat).
-    Proof.
-      start. split_coefs; subst_Y2; subst_r1; sign_cases i; field; repeat split; assumption.
-    Qed.
+    Proof. start. compute_coef. dsigns; pose_common; abs_atoms S i; subst; solve_all. Qed.
     Lemma modB2 : tzero (modB (with_second_order S i b) 2%nat).
     Proof.
-      start. split_coefs.
-      - rewrite (r2_B20 O S H2), (r2_G2 O S H2). unfold q_c, q_s, r_c, r_s. rewrite ll_lp, bl_lp.
-        rewrite <- ?(r1_dX1c O S HR), <- ?(r1_dY1c O S HR), <- ?(r1_dY1s O S HR).
-        subst_r1d. rewrite Dsig_formula. subst_r1. sign_cases i; field; repeat split; assumption.
-      - rewrite (r2_X2c O S H2). unfold q_c, q_s, r_c, r_s. rewrite ll_lp, bl_lp.
-        rewrite <- ?(r1_dX1c O S HR), <- ?(r1_dY1c O S HR), <- ?(r1_dY1s O S HR).
-        subst_Z. subst_r1. sign_cases i; field; repeat split; assumption.
-      - rewrite (r2_X2s O S H2). unfold q_c, q_s, r_c, r_s. rewrite ll_lp, bl_lp.
-        rewrite <- ?(r1_dX1c O S HR), <- ?(r1_dY1c O S HR), <- ?(r1_dY1s O S HR).
-        subst_Z. subst_r1. sign_cases i; field; repeat split; assumption.
+      start. compute_coef.
+      pose proof (r2_B20 O S H2 i) as EB20; prep_q EB20. pose proof (r2_G2 O S H2 i) as EG2.
+      pose proof (r2_X2c O S H2 i) as EX2c; prep_q EX2c. pose proof (r2_X2s O S H2 i) as EX2s; prep_q EX2s.
+      dsigns; pose_common; abs_atoms S i; subst; solve_all.
     Qed.
 
-    Ltac subst_d2 :=
-      rewrite ?(r2_dX20 O S H2), ?(r2_dX2s O S H2), ?(r2_dX2c O S H2), ?(r2_dY20 O S H2), ?(r2_dY2s O S H2), ?(r2_dY2c O S H2);
-      unfold Dv, C04_spec.Dv.
     Ltac use_ode c E Hode :=
       match goal with |- ?L = 0 => transitivity (c * E); [ | rewrite Hode; ring] end;
-      unfold ode1, ode2, fX0, fXs, fXc, fY0, fYs, fYc, C04_spec.lp;
+      unfold ode1, ode2, fX0, fXs, fXc, fY0, fYs, fYc, C04_spec.lp, C04_spec.Dv;
       change (S "s.B0" i / Rabs (S "s.G0" i)) with (bl S i); rewrite bl_lp;
-      subst_d2; subst_Y2; subst_Z; subst_r1d; rewrite ?Dsig_formula; subst_r1; unfold Dv.
+      pose proof (r2_dX20 O S H2 i) as D1; pose proof (r2_dX2s O S H2 i) as D2; pose proof (r2_dX2c O S H2 i) as D3;
+      pose proof (r2_dY20 O S H2 i) as D4; pose proof (r2_dY2s O S H2 i) as D5; pose proof (r2_dY2c O S H2 i) as D6;
+      unfold Dv in D1, D2, D3, D4, D5, D6; rewrite <- ?D1, <- ?D2, <- ?D3, <- ?D4, <- ?D5, <- ?D6;
+      clear D1 D2 D3 D4 D5 D6.
     Lemma crl2 : tzero (crl (with_second_order S i b) 2%nat).
     Proof.
       start. split_coefs; try ring.
-      - use_ode (-2 * spsi i * B0 i) (ode1 O S "s.X20" "s.Y20" i) (r2_ode1 O S H2 i).
-        sign_cases i; field; repeat split; assumption.
-      - use_ode (2 * spsi i * B0 i) (ode2 O S "s.X20" "s.Y20" i) (r2_ode2 O S H2 i).
-        sign_cases i; field; repeat split; assumption.
+      - use_ode (-2 * spsi i * B0 i) (ode1 O S "s.X20" "s.Y20" i) (r2_ode1 O S H2 i). dsigns; pose_common; fin.
+      - use_ode (2 * spsi i * B0 i) (ode2 O S "s.X20" "s.Y20" i) (r2_ode2 O S H2 i). dsigns; pose_common; fin.
     Qed.
+
+    Theorem r2_claims : claims_r2 (with_second_order S i b).
+    Proof. repeat split; [apply pol3 | apply tor2 | apply rad1 | apply jac2 | apply modB2 | apply crl2]. Qed.
   End Claims.
+
+  (* ---- third order: the poloidally averaged O(r^3) toroidal and Jacobian (flux) conditions ---- *)
+  Section Claims3.
+    Variable i : I.
+  (* all the facts needed at third order, as hypotheses *)
+    Ltac pose_facts :=
+      pose proof (r3_X3c1 S H3 i) as E1; pose proof (r3_Y3c1 S H3 i) as E2; pose proof (r3_Y3s1 S H3 i) as E3;
+      pose proof (r3_lam S H3 i) as E4; unfold lam_code in E4; cbv zeta in E4;
+      pose proof (r2_B20 O S H2 i) as E5; unfold q_c, q_s, r_c, r_s in E5;
+      rewrite ?ll_lp, ?bl_lp in E5;
+      rewrite <- ?(r1_dX1c O S HR), <- ?(r1_dY1c O S HR), <- ?(r1_dY1s O S HR) in E5;
+      pose proof (r2_G2 O S H2 i) as E6;
+      pose proof (Y2s_c i) as E7; pose proof (Y2c_c i) as E8; pose proof (Z20_c i) as E9; pose proof (Z2s_c i) as E10;
+      pose proof (Z2c_c i) as E11; pose proof (dY1c_c i) as E12; pose proof (dY1s_x i) as E13; pose proof (Y1s_x i) as E14;
+      pose proof (eta_x i) as E15;
+      pose proof (f_equal (fun f => f i) (ax_G0 S HA)) as E16; cbv beta in E16.
+
+    Lemma tor3_avg : tavg (tor (atoms_of S i) 3%nat) = 0.
+    Proof.
+      unfold atoms_of. nonzero i. pose proof (X1c_nz i). compute_coef.
+      destruct (sq1_cases _ (adm_sG S Hadm i)) as [HsG|HsG]; destruct (sq1_cases _ (adm_spsi S Hadm i)) as [Hsp|Hsp].
+      all: pose_facts; abs_atoms S i; subst; field; repeat split; assumption.
+    Qed.
+
+    (* psi' modB = B^2 tor + Gh jac, read at [r^3, average]: with modB[r^2], tor[r^1], tor[r^2], jac[r^1] already
+       shown to vanish, the averaged Jacobian condition is equivalent to the averaged toroidal one *)
+    Lemma jac3_avg : tavg (jac (atoms_of S i) 3%nat) = 0.
+    Proof.
+      pose proof tor3_avg as T30.
+      pose proof (tzero_tcos _ (modB2 i (atoms_of S i)) 0%nat) as M20.
+      pose proof (tzero_tcos _ (tor2 i (atoms_of S i)) 1%nat) as T21.
+      first [ pose proof (r1_claims O S HA HR Hadm i (atoms_of S i)) as R1c
+            | pose proof (r1_claims O S HD HA HR Hadm i (atoms_of S i)) as R1c ].
+      destruct R1c as (_ & _ & _ & _ & T1 & _ & _ & J1 & _).
+      pose proof (tzero_tcos _ T1 0%nat) as T10. pose proof (tzero_tcos _ J1 0%nat) as J10.
+      assert (ID : S "s.spsi" i * S "s.B0" i * tcos (modB (with_second_order S i (atoms_of S i)) 2%nat) 0
+                   = S "s.B0" i * S "s.B0" i * tavg (tor (atoms_of S i) 3%nat)
+                     + S "s.G0" i * tavg (jac (atoms_of S i) 3%nat)
+                     + S "s.B0" i * S "s.B0" i * S "s.etabar" i * tcos (tor (with_second_order S i (atoms_of S i)) 2%nat) 1
+                     + (2 * S "s.B0" i * S "s.B20" i + S "s.B0" i * S "s.B0" i * S "s.etabar" i * S "s.etabar" i / 2)
+                       * tcos (tor (with_first_order S i (atoms_of S i)) 1%nat) 0
+                     + (S "s.G2" i + (S "s.iota" i - S "s.iotaN" i) * S "s.I2" i)
+                       * tcos (jac (with_first_order S i (atoms_of S i)) 1%nat) 0).
+      { unfold with_second_order, with_first_order, atoms_of. compute_coef. field. }
+      rewrite M20, T30, T21, T10, J10 in ID.
+      assert (HG : S "s.G0" i <> 0).
+      { rewrite (ax_G0 S HA). nonzero i.
+        destruct (sq1_cases _ (adm_sG S Hadm i)) as [E|E]; rewrite E;
+          repeat apply Rmult_integral_contrapositive_currified; try assumption; lra. }
+      apply (Rmult_eq_reg_l (S "s.G0" i)); [lra | exact HG].
+    Qed.
+    Theorem r3_claims : claims_r3 (atoms_of S i).
+    Proof. split; [apply tor3_avg | apply jac3_avg]. Qed.
+  End Claims3.
 End R2.
+
+
+(* ------------------------------------------------------------------------------------------ *)
+(* Closed statements: for every index type, every operator structure whose o_D is a derivation, every object
+   state S and all models of the regenerated programs agreeing with S on attributes.  h0 / hN are the two
+   helicity variants of the translated functions. *)
+Definition r1_hyps {I : Type} (O : ops I) (S : string -> I -> R) (P1 : prog) : Prop :=
+  derivation O /\ admissible S
+  /\ (exists VA, stage O init_axis S VA) /\ (exists V1, stage O P1 S V1)
+  /\ (exists VR, stage O residual S VR /\ sigma_solved O S VR).
+Definition r2_hyps {I : Type} (O : ops I) (S : string -> I -> R) (P1 P2 : prog) : Prop :=
+  r1_hyps O S P1
+  /\ (exists V2, stage O P2 S V2 /\ (forall i, V2 "solve1_eq0" i = 0) /\ (forall i, V2 "solve1_eq1" i = 0)).
+Definition r3_hyps {I : Type} (O : ops I) (S : string -> I -> R) (P1 P2 P3 : prog) : Prop :=
+  r2_hyps O S P1 P2 /\ (exists V3, stage O P3 S V3).
+
+Section Closed.
+  Context {I : Type} (O : ops I) (S : string -> I -> R).
+
+  (* order r1; [b] supplies arbitrary values for every attribute of order >= 2 *)
+  Definition C01_r1_statement (P1 : prog) : Prop :=
+    r1_hyps O S P1 -> forall i b,
+      claims_r1 (with_first_order S i b) /\ claims_r1_avg (with_first_order S i b)
+      /\ tavg (pol (with_first_order S i b) 3%nat)
+          = S "s.spsi" i * S "s.B0" i * (S "s.curvature" i * S "s.curvature" i) / (2 * (S "s.etabar" i * S "s.etabar" i))
+            * sigma_residual O S i.
+  Lemma C01_r1_gen P1 : (forall V1, stage O P1 S V1 -> r1_facts O S) -> C01_r1_statement P1.
+  Proof.
+    intros F (HD & Hadm & [VA HA] & [V1 H1] & [VR [HRs Hsol]]) i b.
+    pose proof (axis_facts_of_stage O S VA HA) as FA. pose proof (F V1 H1) as FR.
+    first [ pose proof (sigma_residual_zero O S FA Hadm VR HRs Hsol) as Hs
+          | pose proof (sigma_residual_zero O S HD FA FR Hadm VR HRs Hsol) as Hs
+          | pose proof (sigma_residual_zero O S HD FA Hadm VR HRs Hsol) as Hs ].
+    split; [first [exact (r1_claims O S FA FR Hadm i b) | exact (r1_claims O S HD FA FR Hadm i b)]|]. split.
+    - exact (r1_avg_claims O S HD FA FR Hadm i b (Hs i)).
+    - exact (pol3_avg_identity O S HD FA FR Hadm i b).
+  Qed.
+  Theorem C01_r1_h0 : C01_r1_statement r1_diagnostics_h0.
+  Proof. apply C01_r1_gen. apply r1_facts_of_stage_h0. Qed.
+  Theorem C01_r1_hN : C01_r1_statement r1_diagnostics_hN.
+  Proof. apply C01_r1_gen. apply r1_facts_of_stage_hN. Qed.
+
+  (* order r2; [b] supplies arbitrary values for every attribute of order 3 *)
+  Definition C01_r2_statement (P1 P2 : prog) : Prop :=
+    r2_hyps O S P1 P2 -> forall i b, claims_r2 (with_second_order S i b).
+  Lemma C01_r2_gen P1 P2 : (forall V1, stage O P1 S V1 -> r1_facts O S) ->
+    (forall V2, stage O P2 S V2 -> (forall i, V2 "solve1_eq0" i = 0) -> (forall i, V2 "solve1_eq1" i = 0) -> r2_facts O S) ->
+    C01_r2_statement P1 P2.
+  Proof.
+    intros F F2 ((HD & Hadm & [VA HA] & [V1 H1] & [VR [HRs Hsol]]) & [V2 (H2 & Hz0 & Hz1)]) i b.
+    pose proof (axis_facts_of_stage O S VA HA) as FA. pose proof (F V1 H1) as FR.
+    first [ pose proof (sigma_residual_zero O S FA Hadm VR HRs Hsol) as Hs
+          | pose proof (sigma_residual_zero O S HD FA FR Hadm VR HRs Hsol) as Hs
+          | pose proof (sigma_residual_zero O S HD FA Hadm VR HRs Hsol) as Hs ].
+    exact (r2_claims O S HD FA FR (F2 V2 H2 Hz0 Hz1) Hadm Hs i b).
+  Qed.
+  Ltac close_r2 f1 f2 :=
+    let H := fresh "H" in let HD := fresh "HD" in
+    intros H; pose proof H as ((HD & _) & _); revert H;
+    apply C01_r2_gen; [apply f1 | apply (f2 O S (der_lin O HD))].
+  Theorem C01_r2_h0 : C01_r2_statement r1_diagnostics_h0 calculate_r2_h0.
+  Proof.
+    intros H. pose proof H as ((HD & _) & _). revert H.
+    apply C01_r2_gen; [apply r1_facts_of_stage_h0 | apply (r2_facts_of_stage_h0 O S (der_lin O HD))].
+  Qed.
+
+  (* order r3 *)
+  Definition C01_r3_statement (P1 P2 P3 : prog) : Prop :=
+    r3_hyps O S P1 P2 P3 -> forall i, claims_r3 (atoms_of S i).
+  Lemma C01_r3_gen P1 P2 P3 : (forall V1, stage O P1 S V1 -> r1_facts O S) ->
+    (forall V2, stage O P2 S V2 -> (forall i, V2 "solve1_eq0" i = 0) -> (forall i, V2 "solve1_eq1" i = 0) -> r2_facts O S) ->
+    (forall V3, stage O P3 S V3 -> r3_facts S) ->
+    C01_r3_statement P1 P2 P3.
+  Proof.
+    intros F F2 F3 (((HD & Hadm & [VA HA] & [V1 H1] & [VR [HRs Hsol]]) & [V2 (H2 & Hz0 & Hz1)]) & [V3 H3]) i.
+    pose proof (axis_facts_of_stage O S VA HA) as FA. pose proof (F V1 H1) as FR.
+    first [ pose proof (sigma_residual_zero O S FA Hadm VR HRs Hsol) as Hs
+          | pose proof (sigma_residual_zero O S HD FA FR Hadm VR HRs Hsol) as Hs
+          | pose proof (sigma_residual_zero O S HD FA Hadm VR HRs Hsol) as Hs ].
+    exact (r3_claims O S HD FA FR (F2 V2 H2 Hz0 Hz1) Hadm Hs (F3 V3 H3) i).
+  Qed.
+  Theorem C01_r2_hN : C01_r2_statement r1_diagnostics_hN calculate_r2_hN.
+  Proof. close_r2 (@r1_facts_of_stage_hN I O S) (@r2_facts_of_stage_hN I). Qed.
+
+  Ltac close_r3 f1 f2 f3 :=
+    let H := fresh "H" in let HD := fresh "HD" in
+    intros H; pose proof H as (((HD & _) & _) & _); revert H;
+    apply C01_r3_gen; [apply f1 | apply (f2 O S (der_lin O HD)) | apply f3].
+  Theorem C01_r3_h0 : C01_r3_statement r1_diagnostics_h0 calculate_r2_h0 calculate_r3_h0.
+  Proof. close_r3 (@r1_facts_of_stage_h0 I O S) (@r2_facts_of_stage_h0 I) (@r3_facts_of_stage_h0 I O S). Qed.
+  Theorem C01_r3_hN : C01_r3_statement r1_diagnostics_hN calculate_r2_hN calculate_r3_hN.
+  Proof. close_r3 (@r1_facts_of_stage_hN I O S) (@r2_facts_of_stage_hN I) (@r3_facts_of_stage_hN I O S). Qed.
+End Closed.
+
+Print Assumptions C01_r1_h0.
+Print Assumptions C01_r1_hN.
+Print Assumptions C01_r2_h0.
+Print Assumptions C01_r2_hN.
+Print Assumptions C01_r3_h0.
+Print Assumptions C01_r3_hN.
+
